@@ -247,6 +247,49 @@ func (r *recorder) String() string {
 	return sb.String()
 }
 
+// mkBuf builds the destination buffer of an `nc` op: n bytes, pre-filled. capTok "" = capacity n;
+// "c<extra>" = make([]byte, n, n+extra); "p<size>" = a pooled-style big buffer resliced to n (big[:n]).
+// `whole` is the backing array (to check that nothing beyond len is written).
+func mkBuf(n int, capTok string) (buf, whole []byte, ok bool) {
+	if capTok == "" {
+		b := filled(n)
+		return b, b, true
+	}
+	k, err := strconv.Atoi(capTok[1:])
+	if err != nil || k < 0 {
+		return nil, nil, false
+	}
+	switch capTok[0] {
+	case 'c':
+		whole = filled(n + k)
+	case 'p':
+		if k < n {
+			return nil, nil, false
+		}
+		whole = filled(k)
+	default:
+		return nil, nil, false
+	}
+	return whole[:n:len(whole)], whole, true
+}
+
+// spareNote reports a store beyond len(buf) into the spare capacity
+func spareNote(n int, whole []byte) string {
+	for _, x := range whole[n:] {
+		if x != fillByte {
+			return " spare-modified"
+		}
+	}
+	return ""
+}
+
+func capTokOf(f []string) string {
+	if len(f) == 6 {
+		return f[5]
+	}
+	return ""
+}
+
 func filled(n int) []byte {
 	b := make([]byte, n)
 	for i := range b {
@@ -423,7 +466,7 @@ func runOp(f []string) (res string, ok bool) {
 			err := thrift.FastUnmarshal(buf, z)
 			return lib.Hex(buf) + " " + lib.ErrStr(err) + " " + fromCodec(f[1], z).Tok()
 		}), true
-	case len(f) == 5 && f[0] == "nc" && (f[1] == "str" || f[1] == "bin"):
+	case (len(f) == 5 || len(f) == 6) && f[0] == "nc" && (f[1] == "str" || f[1] == "bin"):
 		s, ok := unhexS(f[2])
 		n, err := strconv.Atoi(f[3])
 		rec := &recorder{}
@@ -431,17 +474,20 @@ func runOp(f []string) (res string, ok bool) {
 		if !ok || err != nil || n < 0 || !okw {
 			return "", false
 		}
+		buf, whole, okb := mkBuf(n, capTokOf(f))
+		if !okb {
+			return "", false
+		}
 		return lib.Guard(func() string {
-			buf := filled(n)
 			var k int
 			if f[1] == "str" {
 				k = thrift.Binary.WriteStringNocopy(buf, w, s)
 			} else {
 				k = thrift.Binary.WriteBinaryNocopy(buf, w, []byte(s))
 			}
-			return strconv.Itoa(k) + " " + lib.Hex(buf) + rec.String()
+			return strconv.Itoa(k) + " " + lib.Hex(buf) + rec.String() + spareNote(n, whole)
 		}), true
-	case len(f) == 5 && f[0] == "nc":
+	case (len(f) == 5 || len(f) == 6) && f[0] == "nc":
 		v, ok := parseV(f[1], f[2])
 		n, err := strconv.Atoi(f[3])
 		rec := &recorder{}
@@ -449,10 +495,13 @@ func runOp(f []string) (res string, ok bool) {
 		if !ok || err != nil || n < 0 || !okw {
 			return "", false
 		}
+		buf, whole, okb := mkBuf(n, capTokOf(f))
+		if !okb {
+			return "", false
+		}
 		return lib.Guard(func() string {
-			buf := filled(n)
 			k := v.Codec().FastWriteNocopy(buf, w)
-			return strconv.Itoa(k) + " " + lib.Hex(buf) + rec.String()
+			return strconv.Itoa(k) + " " + lib.Hex(buf) + rec.String() + spareNote(n, whole)
 		}), true
 	case len(f) == 2 && f[0] == "nclen":
 		s, ok := unhexS(f[1])
@@ -955,6 +1004,9 @@ func genCases(o *lib.Opts) {
 		for _, kind := range []string{"str", "bin"} {
 			for _, w := range []string{"w", "nil"} {
 				emitOp("nc-str", "nc", kind, s, strconv.Itoa(4+L), w)
+				// destination with spare capacity (len < cap): remainCap is about len, not cap
+				emitOp("nc-str-sparecap", "nc", kind, s, strconv.Itoa(4+L), w, "c"+strconv.Itoa(r.Pick(1, 7, 512, 4096)))
+				emitOp("nc-str-sparecap", "nc", kind, s, strconv.Itoa(4+L), w, "p"+strconv.Itoa(pow2(4+L+1)))
 				emitOp("nc-str", "nc", kind, s, strconv.Itoa(4+L+r.Pick(1, 3, 100)), w)
 				emitOp("nc-str-short", "nc", kind, s, strconv.Itoa(r.Intn(4+L)), w)
 				emitOp("nc-str-short", "nc", kind, s, strconv.Itoa(r.Pick(0, 3, 4, 5)), w)
@@ -992,6 +1044,16 @@ func genCases(o *lib.Opts) {
 			emitOp("nc-exact", "nc", c.st, tok, strconv.Itoa(bl), w)
 		}
 		emitOp("nc-roomy", "nc", c.st, tok, strconv.Itoa(bl+r.Pick(1, 4, 4096)), "w")
+		// destination with spare capacity: make([]byte, BLength, BLength+extra) and a pooled-style big[:BLength]
+		for _, extra := range []int{1, 7, 512, 4096} {
+			if extra == 1 || extra == 4096 || i%2 == 0 {
+				emitOp("nc-sparecap", "nc", c.st, tok, strconv.Itoa(bl), "w", "c"+strconv.Itoa(extra))
+			}
+		}
+		emitOp("nc-sparecap", "nc", c.st, tok, strconv.Itoa(bl), "w", "p"+strconv.Itoa(pow2(bl+1)))
+		if i%4 == 0 {
+			emitOp("nc-sparecap", "nc", c.st, tok, strconv.Itoa(bl), "nil", "c"+strconv.Itoa(r.Pick(1, 7, 512, 4096)))
+		}
 		// too short: outside C15, model vs implementation only (a map order cannot be recovered from a
 		// stream that does not fit, so only maps with at most one entry)
 		if i%3 == 0 && bl > 0 && len(v.E) <= 1 {
@@ -999,6 +1061,14 @@ func genCases(o *lib.Opts) {
 			emitOp("nc-short", "nc", c.st, tok, strconv.Itoa(bl-r.Pick(1, 2, 4, 5)), "w")
 		}
 	}
+}
+
+func pow2(n int) int {
+	c := 64
+	for c < n {
+		c *= 2
+	}
+	return c
 }
 
 func replay(lines [][]string) {
